@@ -42,6 +42,7 @@ type copResult struct {
 	entries []iface.IPFSLogEntry // GetEntries
 	n       int
 	done    bool
+	emap    iface.IPFSLogOrderedEntries // the value GetEntries returned
 }
 
 func runCop(h *hist, L *ipfslog.IPFSLog, other *ipfslog.IPFSLog, op int, g int, res *copResult) {
@@ -56,7 +57,8 @@ func runCop(h *hist, L *ipfslog.IPFSLog, other *ipfslog.IPFSLog, op int, g int, 
 	case cHeads:
 		res.heads = L.Heads().Slice()
 	case cGetEntries:
-		res.entries = L.GetEntries().Slice()
+		res.emap = L.GetEntries()
+		res.entries = res.emap.Slice()
 	case cGetHas:
 		for _, e := range entriesOf(other) {
 			got, ok := L.Get(e.GetHash())
@@ -235,6 +237,7 @@ func H_C13() {
 			}
 			vx.Assert("C13", okh, "concurrently read heads are mutually unordered (consistent with some entry set)")
 		case cGetEntries:
+			vx.Assert("C13", r.emap.Len() == len(r.entries) && sameSeq(r.emap.Slice(), r.entries), "the value a concurrent GetEntries returned is one fixed state: later operations do not change it")
 			if !bounded {
 				vx.Assert("C13", subset(hashSet(before), hashSet(r.entries)) && subset(hashSet(r.entries), fset), "a concurrent GetEntries lies between the initial and the final state")
 			}
